@@ -140,7 +140,12 @@ def check_case(outcome, flagbits, report_to, subject='clock'):
     if want_time:
         flags |= B.FLAG_STATUS_TIME
     world = world_for(outcome)
-    bundle = bundle_for(outcome, flags, report_to, subject=subject)
+    prior = None
+    if subject.endswith('-after'):
+        # history: the same agent has already processed an earlier bundle of the same source (same creation time,
+        # the sequence number before this one; no reports requested), so the subject is not the first it sees
+        prior = B.encode(bundle_for(outcome, 0, 'dtn:none', seq=0, subject=subject[:-6]))
+    bundle = bundle_for(outcome, flags, report_to, subject=subject[:-6] if prior else subject)
     data = B.encode(bundle)
     label = dict(outcome=outcome, requested=sorted(requested), status_time=want_time, report_to=report_to, subject=subject)
     out = []
@@ -149,6 +154,11 @@ def check_case(outcome, flagbits, report_to, subject='clock'):
         v = Violation(PROP, 'reports', kind, sig, '%r: %s' % (label, detail)).as_dict()
         v['case'] = dict(label=label, received=data.hex(), flagbits=flagbits)
         out.append(v)
+    before = 0
+    if prior is not None:
+        world.receive(prior)
+        world.quiesce()
+        before = len(world.sent())
     if outcome == 'duplicate':
         world.receive(data)
         world.quiesce()
@@ -159,7 +169,7 @@ def check_case(outcome, flagbits, report_to, subject='clock'):
     else:
         world.receive(data)
         world.quiesce()
-        sent = world.sent()
+        sent = world.sent()[before:]
     if world.escaped:
         esc = world.escaped[-1]
         bad('exception-escaped-idle-callback', dict(exc=esc[0]), '%s: %s' % (esc[0], esc[2]))
@@ -243,7 +253,7 @@ def run_outcome(params, known):
     count = 0
     samples = []
     combos = [('dtn:none', 'clock'), ('dtn://rpt/x', 'clock'), ('dtn://rpt/x', 'clockless'), ('ipn:977000.100.7', 'ipn3'),
-              ('dtn://Rp/?b', 'odd-eids')]
+              ('dtn://Rp/?b', 'odd-eids'), ('dtn://rpt/x', 'clock-after'), ('dtn://rpt/x', 'clockless-after')]
     if params.get('tier') == 'thorough':
         combos += [('dtn://rpt/x', 'crc0'), ('dtn://rpt/x', 'crc2'), ('ipn:9.9', 'clock'), ('dtn:none', 'clockless')]
         if outcome in ('forward', 'delete-by-route', 'forward-without-tx-route', 'no-matching-route'):
@@ -278,6 +288,7 @@ ASSUMPTIONS = [
     'the nineteen outcomes are produced by routing tables / a BIB or BCB with an unknown security context / an undecodable BCB / a route MTU of 120 octets',
     'thorough tier: also subjects without CRC / with CRC-32, an ipn report-to endpoint, and subjects that are themselves fragments (fragment fields of the report are not judged)',
     'subjects: a bundle with a creation time, one from a clockless source (creation time 0, sequence number, age block), and one whose source and report-to are three-number ipn endpoint IDs',
+    'histories: the subject is also judged as the second bundle of its source on one agent (same creation time, next sequence number; with and without a clock)',
     'a report is required for deliver / forward / delete-by-route / own-endpoint when a requested action occurred (the title says "exactly when requested"); for the other outcomes only reports that are emitted are judged',
 ]
 
